@@ -55,7 +55,7 @@ def replay_history(uni, mp, g, ps, cls, w, x, letters, name):
     zero = G.Zero.to_bytes()
     for l in letters:
         o = r.t.objs[r.inst[cur]]
-        own = getattr(o, "outbound_message", b"")
+        own = r.t.own(r.inst[cur])
         valid = next(G.Base.scalarmult(k).to_bytes() for k in range(1, q) if G.Base.scalarmult(k).to_bytes() != own)
         if l == "start":
             r.start(cur, mp.stream_for(g, x))
@@ -169,7 +169,7 @@ def run(ctx):
             cur, n = "c", 0
             for l in ls:
                 o = r.t.objs[r.inst[cur]]
-                own = getattr(o, "outbound_message", b"")
+                own = r.t.own(r.inst[cur])
                 valid = G.Base.scalarmult(5 + k).to_bytes()
                 if l in ("start", "start_fail"):
                     # start_fail: the entropy function raises - at once, or (integer groups, k odd) after a rejected draw
